@@ -68,7 +68,7 @@ _VAL = re.compile(r'%("[^"]+"|[\w.]+)')
 
 
 class IRFunc:
-    __slots__ = ('name', 'params', 'attrs', 'body', 'linkage', 'callees', 'globals', 'pretty', 'module')
+    __slots__ = ('name', 'params', 'attrs', 'body', 'linkage', 'callees', 'globals', 'pretty', 'module', 'sret')
 
     def __init__(self, name, params, attrs, linkage, module):
         self.name = name
@@ -80,6 +80,7 @@ class IRFunc:
         self.globals = set()
         self.pretty = name
         self.module = module
+        self.sret = None
 
 
 class Module:
@@ -127,10 +128,14 @@ class Module:
                     if curp.strip():
                         ps.append(curp)
                     pn = []
-                    for p in ps:
+                    sret = None
+                    for pi, p in enumerate(ps):
                         v = _VAL.findall(p)
                         pn.append(('%' + v[-1].strip('"')) if v else None)
+                        if 'sret(' in p:
+                            sret = pi          # hidden return slot of a function returning an aggregate
                     cur = IRFunc(name, pn, attrs, pre.split()[0] if pre.split() else 'external', self)
+                    cur.sret = sret
                     self.funcs[name] = cur
                     continue
                 m = _DECL.match(s)
